@@ -103,7 +103,7 @@ pub fn strategy() -> impl Strategy<Value = Case> {
 	)
 		.prop_map(|(mut hooks, gm, ch, ah, ids, env_daemon, env_global, env_cert, env_acct)| {
 			for (i, h) in hooks.iter_mut().enumerate() {
-				h.name = format!("h{i}");
+				h.name = hname(i);
 			}
 			let nh = hooks.len();
 			let ng = gm.len();
@@ -112,11 +112,11 @@ pub fn strategy() -> impl Strategy<Value = Case> {
 				.iter()
 				.enumerate()
 				.map(|(j, ms)| {
-					let members = ms.iter().map(|m| if j > 0 && m % 3 == 0 { format!("g{}", m % j) } else { format!("h{}", m % nh) }).collect();
+					let members = ms.iter().map(|m| if j > 0 && m % 3 == 0 { format!("g{}", m % j) } else { hname(m % nh) }).collect();
 					(format!("g{j}"), members)
 				})
 				.collect();
-			let pick = |k: &usize| if ng > 0 && k % 3 == 0 { format!("g{}", k % ng) } else { format!("h{}", k % nh) };
+			let pick = |k: &usize| if ng > 0 && k % 3 == 0 { format!("g{}", k % ng) } else { hname(k % nh) };
 			let ids = ids.into_iter().enumerate().map(|(i, (c, e))| (format!("n{i}.c10.test"), c.to_string(), e.into_iter().map(|(k, v)| (k, format!("{v}{i}"))).collect())).collect();
 			Case { hooks, groups, cert_hooks: ch.iter().map(pick).collect(), acct_hooks: ah.iter().map(pick).collect(), ids, env_daemon, env_global, env_cert, env_acct }
 		})
@@ -132,6 +132,13 @@ struct Inv {
 	env: BTreeMap<String, Option<String>>,
 	/// for file events: does the file exist when the hook runs?
 	file_exists: Option<bool>,
+}
+
+/// Hook names: plain ones and names that look like file names of markup or data formats (a template engine that picks its escaping
+/// from a template's name must not be handed the hook's name)
+fn hname(i: usize) -> String {
+	const SUFFIX: [&str; 7] = ["", ".html", "", ".json", ".xml.j2", "", ".yml"];
+	format!("h{i}{}", SUFFIX[i % 7])
 }
 
 fn expand(case: &Case, name: &str, out: &mut Vec<String>) {
